@@ -543,3 +543,32 @@ Proof.
   intros H1 H2 o d I Pp. apply prepare_step_ready in H1 as (D & _).
   eapply is_dir_dirs_kept; [eapply prepare_step_keeps_dirs; exact H2|]. eapply D; eauto.
 Qed.
+
+(* the frame of a prepared step, exactly: without a response file nothing that existed changes and
+   what is new is a directory; with one, the same holds everywhere except at the one location where
+   the file now is (and that location was not a directory) *)
+Theorem prepare_step_exact fs cwd outs rsp fs' :
+  prepare_step fs cwd outs rsp = (None, fs') ->
+  match rsp with
+  | None => extends fs fs' /\ only_dirs_added fs fs'
+  | Some (n, c) =>
+    exists loc, lookup fs' loc = Some (KFile c) /\ lookup fs loc <> Some KDir /\
+      forall q, q <> loc ->
+        (forall k, lookup fs q = Some k -> lookup fs' q = Some k) /\
+        (forall k, lookup fs q = None -> lookup fs' q = Some k -> k = KDir)
+  end.
+Proof.
+  unfold prepare_step. destruct (create_parent_dirs fs cwd outs) as [[e|] fs1] eqn:C; [discriminate|].
+  pose proof (create_parent_dirs_frame _ _ _ _ _ C) as [E1 O1].
+  destruct rsp as [[n c]|].
+  - intros W. pose proof (write_rspfile_dirs_kept _ _ _ _ _ _ W) as K.
+    pose proof (write_rspfile_writes _ _ _ _ _ W) as (_ & loc & LL & FR).
+    exists loc. split; [exact LL|]. split.
+    + intros D. apply E1 in D. apply K in D. congruence.
+    + intros q Ne. destruct (FR q Ne) as [F1 F2]. split.
+      * intros k L. apply F1. now apply E1.
+      * intros k L1 L2. destruct (lookup fs1 q) as [k1|] eqn:L.
+        -- assert (k1 = KDir) by (eapply O1; eauto). subst. specialize (F1 KDir eq_refl). congruence.
+        -- eapply F2; eauto.
+  - intros H; inversion H; subst. now split.
+Qed.
